@@ -233,9 +233,9 @@ def arc_deref(e, c, a):
     return e.load(a[0])
 
 
-@model(r"<Vec<.*> as Deref(Mut)?>::deref(_mut)?$|^Vec::<.*>::as_slice$|^Vec::<.*>::as_mut_slice$|<String as Deref(Mut)?>::deref(_mut)?$|"
-       r"^String::as_str$|^String::as_bytes$|<impl str>::as_bytes$|^str::as_bytes$|<Vec<.*> as AsRef<\[.*\]>>::as_ref$|<String as AsRef<str>>::as_ref$|"
-       r"<\[.*\] as AsRef<\[.*\]>>::as_ref$|<str as AsRef<str>>::as_ref$|<String as Borrow<str>>::borrow$|<Vec<.*> as Borrow<\[.*\]>>::borrow$|"
+@model(r"^<Vec<.*> as Deref(Mut)?>::deref(_mut)?$|^Vec::<.*>::as_slice$|^Vec::<.*>::as_mut_slice$|<String as Deref(Mut)?>::deref(_mut)?$|"
+       r"^String::as_str$|^String::as_bytes$|<impl str>::as_bytes$|^str::as_bytes$|^<Vec<.*> as AsRef<\[.*\]>>::as_ref$|<String as AsRef<str>>::as_ref$|"
+       r"<\[.*\] as AsRef<\[.*\]>>::as_ref$|<str as AsRef<str>>::as_ref$|<String as Borrow<str>>::borrow$|^<Vec<.*> as Borrow<\[.*\]>>::borrow$|"
        r"<String as AsRef<\[u8\]>>::as_ref$|<str as AsRef<\[u8\]>>::as_ref$|^Vec::<.*>::as_ptr$|<impl \[.*\]>::as_ptr$|<impl \[.*\]>::as_mut_ptr$|^Vec::<.*>::as_mut_ptr$")
 def as_slice_model(e, c, a):
     return e.as_slice(a[0])
@@ -1192,7 +1192,7 @@ def env_var(e, c, a):
     return err(Opaque("VarError")) if "var_os" not in c else none()
 
 
-@model(r"^Instant::now$|^std::time::Instant::now$|^Instant::elapsed$|^std::time::Instant::elapsed$|^Duration::\w+$|^std::time::Duration::\w+$|^SystemTime::now$")
+@model(r"^Instant::now$|^std::time::Instant::now$|^Instant::elapsed$|^std::time::Instant::elapsed$|^Duration::\w+$|^std::time::Duration::\w+$|^SystemTime::now$|^<Duration as (AddAssign|Add|Sub|SubAssign)>::\w+$")
 def time_stub(e, c, a):
     if c.endswith(("as_secs_f64", "as_secs_f32")):
         return 0.0
@@ -1201,4 +1201,4 @@ def time_stub(e, c, a):
     return Opaque("time")
 
 
-from . import models_iter, models_coll, models_io, sched      # noqa: E402,F401  (register more models)
+from . import models_iter, models_coll, models_io, sched, models_thread      # noqa: E402,F401  (register more models)
